@@ -9,6 +9,10 @@
 #include <kernel/trafo/standard/mapping.hpp>
 #include <kernel/space/lagrange1/element.hpp>
 #include <kernel/space/lagrange2/element.hpp>
+#include <kernel/space/discontinuous/element.hpp>
+#include <kernel/global/gate.hpp>
+#include <kernel/global/vector.hpp>
+#include <control/asm/gate_asm.hpp>
 #include <kernel/analytic/common.hpp>
 #include <kernel/assembly/common_functionals.hpp>
 #include <kernel/assembly/interpolator.hpp>
@@ -82,6 +86,19 @@ namespace C13
       Assembly::assemble_linear_functional_vector(the_domain_level.domain_asm, vec_t0.local(), ff, the_domain_level.space, cubature); vec_t0.sync_0(); }
     const double t0_norm = vec_t0.norm2();
     const Index num_dofs = lvl.gate_sys.get_num_global_dofs();
+    // a discontinuous (P0) space on the same level: its gate has no neighbour mirrors at all, yet global dots/norms
+    // must still be the sums over all patches
+    double p0_dot = 0.0, p0_norm = 0.0, p0_norm_async = 0.0, p0_max = 0.0; Index p0_dofs = 0;
+    {
+      typedef Space::Discontinuous::Element<TrafoType, Space::Discontinuous::Variant::StdPolyP<0>> P0Space;
+      typedef LAFEM::DenseVector<DataType, IndexType> LV; typedef LAFEM::VectorMirror<DataType, IndexType> LM;
+      P0Space p0space(the_domain_level.trafo);
+      Global::Gate<LV, LM> p0gate; Control::Asm::asm_gate(domain.front(), p0space, p0gate, true);
+      Global::Vector<LV, LM> pa(&p0gate, LV(p0space.get_num_dofs())), pb(&p0gate, LV(p0space.get_num_dofs()));
+      Assembly::Interpolator::project(pa.local(), sol_func, p0space);
+      Analytic::Common::SineBubbleFunction<Shape_::dimension> sine_func; Assembly::Interpolator::project(pb.local(), sine_func, p0space);
+      p0_dot = pa.dot(pb); p0_norm = pa.norm2(); p0_norm_async = pb.norm2_async().wait(); p0_max = pa.max_abs_element(); p0_dofs = p0gate.get_num_global_dofs();
+    }
 
     lvl.filter_sys.filter_sol(vec_sol); lvl.filter_sys.filter_rhs(vec_rhs);
     const double rhs_norm = vec_rhs.norm2();
@@ -114,9 +131,9 @@ namespace C13
     {
       std::printf("C13JSON {\"ranks\":%d,\"element\":\"%s\",\"num_dofs\":%llu,\"levels_physical\":%llu,\"levels_virtual\":%llu,\"status\":\"%s\",\"iters\":%d,"
         "\"rhs_norm_unfiltered\":%.17g,\"int_norm\":%.17g,\"dot_int_rhs\":%.17g,\"aint_norm\":%.17g,\"energy\":%.17g,\"maxabs\":%.17g,\"t0_norm\":%.17g,\"rhs_norm\":%.17g,"
-        "\"def_init\":%.17g,\"def_final\":%.17g,\"true_res\":%.17g,\"sol_norm\":%.17g,\"h0_err\":%.17g,\"h1_err\":%.17g}\n",
+        "\"p0_dofs\":%llu,\"p0_dot\":%.17g,\"p0_norm\":%.17g,\"p0_norm_async\":%.17g,\"p0_max\":%.17g,\"def_init\":%.17g,\"def_final\":%.17g,\"true_res\":%.17g,\"sol_norm\":%.17g,\"h0_err\":%.17g,\"h1_err\":%.17g}\n",
         comm.size(), ename, (unsigned long long)num_dofs, (unsigned long long)domain.size_physical(), (unsigned long long)domain.size_virtual(), stringify(result).c_str(), iters,
-        rhs_norm_unfiltered, int_norm, dot_int_rhs, aint_norm, energy, maxabs, t0_norm, rhs_norm, def_init, def_final, true_res, sol_norm, std::sqrt((double)errors.norm_h0_sqr), std::sqrt((double)errors.norm_h1_sqr));
+        rhs_norm_unfiltered, int_norm, dot_int_rhs, aint_norm, energy, maxabs, t0_norm, rhs_norm, (unsigned long long)p0_dofs, p0_dot, p0_norm, p0_norm_async, p0_max, def_init, def_final, true_res, sol_norm, std::sqrt((double)errors.norm_h0_sqr), std::sqrt((double)errors.norm_h1_sqr));
       std::printf("C13LEVELS desired [%s] chosen [%s]\n", domain.format_desired_levels().c_str(), domain.format_chosen_levels().c_str());
       std::printf("C13INFO %s\n", domain.get_chosen_parti_info().c_str());
       std::fflush(stdout);
